@@ -20,15 +20,17 @@ class Timeout(Exception):
 
 @contextlib.contextmanager
 def time_limit(seconds):
+    """a limit on the CPU time of this process (ITIMER_PROF), not on wall-clock time: the library is pure computation, and a wall-clock
+    limit turns into false alarms when many checks share the machine (seen once: a 1100-state NFA under a load of 40 processes)"""
     def handler(signum, frame):
         raise Timeout()
-    old = signal.signal(signal.SIGALRM, handler)
-    signal.setitimer(signal.ITIMER_REAL, seconds)
+    old = signal.signal(signal.SIGPROF, handler)
+    signal.setitimer(signal.ITIMER_PROF, seconds)
     try:
         yield
     finally:
-        signal.setitimer(signal.ITIMER_REAL, 0)
-        signal.signal(signal.SIGALRM, old)
+        signal.setitimer(signal.ITIMER_PROF, 0)
+        signal.signal(signal.SIGPROF, old)
 
 
 ERR_CLASS = {
